@@ -1,4 +1,4 @@
-//go:build verif && c18hook
+//go:build verif
 
 package c18
 
